@@ -239,3 +239,21 @@ package j5convert
 //@   loop 0 invariant forall j int {reqPathParts[j]} :: 0 <= j && j < $iter ==> reqPathParts[j] == segOut(splitAt(node.ResolvedPath, "/", j))
 //@   loop 0 invariant forall j int {reqPathParts[j]} :: $iter <= j && j < len(reqPathParts) ==> reqPathParts[j] == splitAt(node.ResolvedPath, "/", j)
 //@   loop 0 invariant node.ResolvedPath == old(node.ResolvedPath) && node.Schema == old(node.Schema)
+
+// ---- properties (C02, C07, C13) --------------------------------------------------------------------
+// A property becomes a field named snake(name) with JSON name name and the number handed down by the
+// walker. A map property refers to a nested entry message whose name is derived from the proto field
+// name (protoc's rule: the linker only accepts <CamelCase(field name)>Entry), and that message is
+// what gets added to the parent. Every field carries an options message (extensions are set on it).
+//@ spec func mapEntry(fieldName string) string
+//@ func mapName
+//@   opt assumed definitional: mapEntry(n) names the string mapName computes from n (a deterministic function of its argument)
+//@   pure
+//@   ensures result == mapEntry(name)
+
+//@ func buildProperty
+//@   requires fileOK(ww) && node != nil && node.Schema != nil && ww.parentContext != nil
+//@   ensures naming: result1 == nil ==> result0 != nil && *result0.Name == snake(node.Schema.Name) && *result0.JsonName == node.Schema.Name && *result0.Number == node.Number
+//@   ensures options: result1 == nil ==> result0.Options != nil
+//@   ensures mapentry: result1 == nil && typeis(node.Field.Schema, *schema_j5pb.Field_Map) ==> result0.TypeName != nil && *result0.TypeName == mapEntry(*result0.Name)
+//@   assert at addMessage#0 entry: arg0 != nil && arg0.descriptor != nil && *arg0.descriptor.Name == mapEntry(snake(node.Schema.Name))
